@@ -233,6 +233,9 @@ RunCanaryBody(sIn) ==
          THEN [d.s EXCEPT !.ro.state = IF ExpectedAll(t) THEN "StepMetricsAnalysis" ELSE "StepTrafficRouting", !.ro.fresh = TRUE]
          ELSE d.s
     [] t.ro.state = "StepTrafficRouting" ->
+         \* a full-replacement partition step never routes by selector (fix: FX-C04-traffic-routing-at-full-replacement-step)
+         IF ExpectedAll(t) THEN [t EXCEPT !.ro.state = "StepMetricsAnalysis", !.ro.fresh = TRUE]
+         ELSE
          LET d == DoTrafficRouting(t) IN
          IF d.done THEN [d.s EXCEPT !.ro.state = "StepMetricsAnalysis", !.ro.fresh = TRUE] ELSE d.s
     [] t.ro.state = "StepMetricsAnalysis" -> [t EXCEPT !.ro.state = "StepPaused"]
